@@ -262,6 +262,32 @@ def fit_param_cases(run, exprs, descr):
                          f"{obs}")
             descr.append(f"get_fit_params {mk} {stored}")
             shutil.rmtree(d, ignore_errors=True)
+            # a second, fresh profile of the same model in the same process
+            # knows nothing of the first one's entries
+            d2 = scratch(f"fp2-{mk}-{rep}")
+            pf2 = profile.Profile(d2 / "p.cfg")
+            pf2["model_key"] = mk
+            run.case({"model": mk, "second-profile": True}, kind="fit-params")
+            try:
+                got2 = pf2.get_fit_params()
+                fresh = model.get_init_parms(mk)
+                leak = [p for p in fresh
+                        if not (got2[p].value == fresh[p].value
+                                and got2[p].vary == fresh[p].vary)]
+                if leak or list(got2) != list(fresh):
+                    run.failing(
+                        SITE, f"fitparams-second-profile:{mk}",
+                        f"a fresh profile for {mk}, created after another "
+                        f"profile with {stored} was read, returns "
+                        f"{[(p, got2[p].value, got2[p].vary) for p in leak]} "
+                        "instead of the model's defaults",
+                        payload={"kind": "rerun"}, theorem="C19_fit_params")
+            except BaseException as e:
+                run.failing(SITE, f"fitparams-second-profile:{mk}",
+                            f"raised {type(e).__name__}: {e}",
+                            payload={"kind": "rerun"},
+                            theorem="C19_fit_params")
+            shutil.rmtree(d2, ignore_errors=True)
 
 
 # --------------------------------------------------------------------------
